@@ -339,6 +339,66 @@ fn monitor(ops: &[Op], real: &[Burst]) -> Vec<(String, String)> {
     out
 }
 
+// ------------------------------------------------------------------ concurrent callers under backlog
+
+/// Issue order between CALLERS (C16: "writes to one key take effect in issue order", "a read
+/// returns the most recently written value"): a second handle, driven by its own task, issues its
+/// command only after `write(k, first)` of the first handle has RETURNED, while the store has a
+/// backlog of `fill` commands it has not looked at yet (the command channel holds 100).  Whatever the
+/// backlog, the second command must take effect after the first.
+async fn exec_backlog(path: &str, fill: usize, second_is_read: bool) -> Vec<(String, String)> {
+    use std::sync::atomic::{AtomicBool, Ordering};
+    let _ = std::fs::remove_dir_all(path);
+    let mut out = Vec::new();
+    let mut store = match Store::new(path) {
+        Ok(s) => s,
+        Err(e) => return vec![("C16:store-error".into(), format!("open failed: {}", e))],
+    };
+    let key = vec![7u8; 32];
+    let issued = std::sync::Arc::new(AtomicBool::new(false));
+    let second = {
+        let mut st = store.clone();
+        let key = key.clone();
+        let issued = issued.clone();
+        tokio::spawn(async move {
+            while !issued.load(Ordering::SeqCst) {
+                tokio::task::yield_now().await;
+            }
+            if second_is_read {
+                st.read(key).await.ok().flatten()
+            } else {
+                st.write(key, b"second".to_vec()).await;
+                None
+            }
+        })
+    };
+    // the store task does not run before this task yields
+    for i in 0..fill {
+        let mut other = vec![0u8; 32];
+        other[0] = 1;
+        other[1] = (i % 256) as u8;
+        other[2] = (i / 256) as u8;
+        store.write(other, vec![i as u8]).await;
+    }
+    store.write(key.clone(), b"first".to_vec()).await;
+    issued.store(true, Ordering::SeqCst);
+    let got = second.await.ok().flatten();
+    if second_is_read {
+        if got.as_deref() != Some(&b"first"[..]) {
+            out.push(("C16:read-lost-write".into(), format!("backlog of {} commands: a read issued by another handle after write(k, first) had returned saw {:?}", fill, got.map(|v| String::from_utf8_lossy(&v).to_string()))));
+        }
+    } else {
+        let fin = store.read(key.clone()).await.ok().flatten();
+        if fin.as_deref() != Some(&b"second"[..]) {
+            out.push(("C16:write-order".into(), format!("backlog of {} commands: write(k, second) was issued by another handle after write(k, first) had returned, but the key reads {:?}", fill, fin.map(|v| String::from_utf8_lossy(&v).to_string()))));
+        }
+    }
+    drop(store);
+    barrier().await;
+    let _ = std::fs::remove_dir_all(path);
+    out
+}
+
 // ------------------------------------------------------------------ generators
 
 fn key_pool(rng: &mut SmallRng) -> Vec<String> {
@@ -582,12 +642,34 @@ pub fn run(o: &Opts) -> Report {
 
     if let Some(file) = &o.replay {
         let v: serde_json::Value = serde_json::from_str(&std::fs::read_to_string(file).expect("replay file")).expect("replay json");
+        if let Some(b) = v.get("backlog") {
+            let fill = b["fill"].as_u64().unwrap_or(100) as usize;
+            let sr = b["second_is_read"].as_bool().unwrap_or(false);
+            let rt2 = tokio::runtime::Builder::new_current_thread().enable_all().build().unwrap();
+            let vs = rt2.block_on(exec_backlog(&format!("{}_bl", path), fill, sr));
+            rep.evaluations += 1;
+            for (k, d) in vs {
+                rep.finding("impl_vs_property", &k, d, json!({"engine": "store", "backlog": {"fill": fill, "second_is_read": sr}}));
+            }
+            return rep;
+        }
         let ops: Vec<Op> = serde_json::from_value(v["ops"].clone()).expect("replay ops");
         run_case(&rt, None, &mut rep, &path, &ops, &mut distinct);
         rep.distinct_nontrivial = distinct.len() as u64;
         return rep;
     }
 
+    // concurrent callers with more pending commands than the command channel holds
+    for (fill, second_is_read) in [(99usize, false), (100, false), (101, false), (140, false), (100, true), (130, true)] {
+        let rt2 = tokio::runtime::Builder::new_current_thread().enable_all().build().unwrap();
+        let v = rt2.block_on(exec_backlog(&format!("{}_bl", path), fill, second_is_read));
+        drop(rt2);
+        rep.evaluations += 1;
+        rep.hit("case.backlog");
+        for (k, d) in v {
+            rep.finding("impl_vs_property", &k, d, json!({"engine": "store", "backlog": {"fill": fill, "second_is_read": second_is_read}}));
+        }
+    }
     let mut model = Model::spawn();
     let mut rng = SmallRng::seed_from_u64(o.seed);
     for n in 0..=8usize {
